@@ -1904,6 +1904,16 @@ def doc_elem(rng: random.Random, ids: Optional[str], depth: int = 2, cls: Option
         d.update(observed=doc_ref(rng, True, 0), direction=rng.choice(["input", "output"]), state=rng.choice(["on", "off"]))
         if rng.random() < 0.3:
             d["messageTopic"] = "topic"
+        # the optional time-valued members, in the literal form the SDK writes; a duration of length zero is a value like any other
+        # (relativedelta() is falsy); maxInterval only for the output direction
+        if rng.random() < 0.5:
+            d["minInterval"] = rng.choice(["P0D", "P0D", "PT5S", "P1D"])
+        if d["direction"] == "output" and rng.random() < 0.5:
+            d["maxInterval"] = rng.choice(["P0D", "P0D", "PT0.5S", "P1Y2M"])
+        if rng.random() < 0.3:
+            d["lastUpdate"] = rng.choice(["2022-01-01T12:00:00+00:00", "0001-01-01T00:00:00+00:00"])
+        if rng.random() < 0.2:
+            d["messageBroker"] = doc_ref(rng, True, 0)
     elif cls == "Operation":
         names = rng.sample(IDSHORTS, rng.randint(0, 3))
         for n in names:
